@@ -6,7 +6,7 @@ PROP = {
         "Mps.C05.accept_total", "Mps.C05.refused_or_late_is_ignored", "Mps.C05.model_behaviours_accepted",
         "Mps.C05.snapGood_of_good",
     ],
-    "generated": ["Mps.C05.gen_decode_calls", "Mps.C05.gen_exponent_guards", "Mps.C05.gen_zk_guards", "Mps.C05.gen_round_guards"],
+    "generated": ["Mps.HandlerSrc.gen_handler_source_0", "Mps.HandlerSrc.gen_handler_source_1", "Mps.HandlerSrc.gen_handler_source_2", "Mps.HandlerSrc.gen_handler_source_3", "Mps.HandlerSrc.gen_handler_source_4", "Mps.HandlerSrc.gen_handler_source_5", "Mps.C05.gen_decode_calls", "Mps.C05.gen_exponent_guards", "Mps.C05.gen_zk_guards", "Mps.C05.gen_round_guards"],
     "suites": [{"name": "malform", "quick": 20, "thorough": 100}, {"name": "codec", "quick": 1, "thorough": 4},
                # the zk verifiers on perturbed / forged / out-of-range proofs (shared with C10): here only `panic` is the property
                {"name": "zk", "quick": 90, "thorough": 90}],
